@@ -39,6 +39,19 @@ func AllWeights() Weights {
 func CatalogWeights() Weights {
 	return Weights{Catalog: 40, KV: 2, Session: 4, Txn: 8, Config: 22, SysMeta: 3, VIP: 2, Peering: 2, Intention: 3}
 }
+// IntentionWeights: mostly intention mutations (by-name upserts and deletes on entries that
+// accumulate several sources) plus some config entries and catalog traffic
+func IntentionWeights() Weights {
+	return Weights{Intention: 45, Config: 10, Catalog: 12, KV: 3}
+}
+
+// IntentionPrelude switches intentions to the config-entry representation (what a leader does once,
+// after migration), which the by-name mutations require.
+func IntentionPrelude() []Cmd {
+	req := structs.SystemMetadataRequest{Datacenter: "dc1", Op: structs.SystemMetadataUpsert, Entry: &structs.SystemMetadataEntry{Key: structs.SystemMetadataIntentionFormatKey, Value: structs.SystemMetadataIntentionFormatConfigValue}}
+	return []Cmd{mk(structs.SystemMetadataRequestType, "sysmeta:upsert:"+structs.SystemMetadataIntentionFormatKey, &req)}
+}
+
 // VIPWeights: catalog + many manual virtual-IP assignments over 3 addresses and 3 services
 func VIPWeights() Weights {
 	return Weights{Catalog: 30, VIP: 25, Config: 8, SysMeta: 2, Txn: 4}
@@ -1058,4 +1071,24 @@ func GatewayPrelude() []Cmd {
 	reg := structs.RegisterRequest{Datacenter: "dc1", Node: "n2", Address: "10.0.0.2", Service: &structs.NodeService{Kind: structs.ServiceKindTerminatingGateway, ID: "tgw", Service: "tgw", Port: 8443}}
 	out = append(out, mk(structs.RegisterRequestType, "register", &reg))
 	return out
+}
+
+// LockDelayScenario: a session with a very short lock-delay holds a key and is destroyed; another live
+// session then tries to take the lock directly and inside a transaction. Whether those commands are
+// accepted must not depend on how long ago THIS replica applied the destroy (the lock-delay map is
+// deliberately un-replicated and is consulted by the leader's endpoint only, never by the FSM).
+func LockDelayScenario() []Cmd {
+	s1, s2 := uuid(9101), uuid(9102)
+	reg := structs.RegisterRequest{Datacenter: "dc1", Node: "n1", Address: "10.0.0.1"}
+	mkSess := func(id string) Cmd {
+		return mk(structs.SessionRequestType, "session:create", &structs.SessionRequest{Datacenter: "dc1", Op: structs.SessionCreate,
+			Session: structs.Session{ID: id, Node: "n1", LockDelay: 5 * time.Millisecond, Behavior: structs.SessionKeysRelease}})
+	}
+	lock := func(id string) Cmd {
+		return mk(structs.KVSRequestType, "kvs:lock", &structs.KVSRequest{Datacenter: "dc1", Op: api.KVLock, DirEnt: structs.DirEntry{Key: "a", Value: []byte("x"), Session: id}})
+	}
+	destroy := mk(structs.SessionRequestType, "session:destroy", &structs.SessionRequest{Datacenter: "dc1", Op: structs.SessionDestroy, Session: structs.Session{ID: s1}})
+	txn := mk(structs.TxnRequestType, "txn", &structs.TxnRequest{Datacenter: "dc1", Ops: structs.TxnOps{{KV: &structs.TxnKVOp{Verb: api.KVLock, DirEnt: structs.DirEntry{Key: "a", Value: []byte("y"), Session: s2}}}}})
+	unlock := mk(structs.KVSRequestType, "kvs:unlock", &structs.KVSRequest{Datacenter: "dc1", Op: api.KVUnlock, DirEnt: structs.DirEntry{Key: "a", Session: s2}})
+	return []Cmd{mk(structs.RegisterRequestType, "register", &reg), mkSess(s1), mkSess(s2), lock(s1), destroy, txn, unlock, lock(s2)}
 }
